@@ -814,6 +814,7 @@ func init() {
 		rule: "unit-level controlled scheduler over flow_control.go (verif constructors + yield points between load, wait, CAS, sendFunc and inside updateWindow): sender goroutine S, updater goroutine U and the atomic action cancel are released one at a time; oracle = terminal-state rule (a blocked sender only with all credit consumed and data remaining; all sent when credit suffices; context error after cancel) and safety at every sendFunc call; small family enumerated exhaustively, larger windows/messages sampled by rapid; receivers are checked against a queue+window model with one blocked reader; plus system-level credit accounting at drained quiescent points of generated streaming workloads; non-trivial = an update step ran while the sender sat between its load and its wait/CAS, or the schedule ended with the sender legitimately waiting for credit"})
 	addParts("C06", part{name: "fcx_sampled", gen: genFcxSampled, exec: execFcx, monitors: []Monitor{monFcx("C06")}, labels: labelsFcx, nontrivial: ntFcx, quick: 1500, thorough: 50000},
 		part{name: "fcx_receiver", gen: genFcxReceiver, exec: execFcx, monitors: []Monitor{monFcx("C06")}, labels: labelsFcx, nontrivial: ntFcx, quick: 1500, thorough: 40000})
+	addParts("C01", part{name: "mixed_srvdeadline", gen: genMixedSrvDeadline, monitors: []Monitor{monC01}, labels: commonLabels, quick: 300, thorough: 10000})
 	addParts("C01", part{name: "fcx_chunking", gen: genFcxSampled, exec: execFcx, monitors: []Monitor{monFcx("C01")}, labels: labelsFcx, nontrivial: ntFcx, quick: 1500, thorough: 50000})
 }
 
@@ -843,6 +844,7 @@ func init() {
 	register(&checkDef{prop: "C15", parts: []part{
 		{name: "sim_bounded_carrier", gen: genMixedTermBounded, monitors: []Monitor{monCarrierUse}, labels: commonLabels, nontrivial: ntCarrierUse, quick: 400, thorough: 12000},
 		{name: "stress", gen: genStress, exec: execStress, monitors: []Monitor{monC15}, labels: commonLabels, nontrivial: ntStress, quick: 150, thorough: 6000, race: true, procs: 16, shards: 4},
+		{name: "stress_registry", gen: genStressReg, exec: execStressReg, monitors: []Monitor{monStressReg}, labels: labelsStressReg, nontrivial: ntStressReg, quick: 100, thorough: 4000, race: true, procs: 16, shards: 4},
 		{name: "stress_grpc", gen: genStressGRPC, exec: execStress, monitors: []Monitor{monC15}, labels: commonLabels, nontrivial: ntStress, quick: 150, thorough: 6000, race: true, procs: 16, shards: 4},
 	},
 		assumptions: []string{"the race detector judges only accesses that actually occur in a run; this is dynamic exploration under real parallelism"},
